@@ -22,6 +22,14 @@ static const parser p(L, terms(number, o_plus, o_mul, '(', ')', ';'), nterms(E, 
     E(E, '+', E) >= [](int a, skip, int b) { return a + b; }, E(E, '*', E) >= [](int a, skip, int b) { return a * b; },
     E('(', E, ')') >= _e2, E(number) >= [](const auto& sv) { return to_int(sv); }));
 
+// re-entrancy: a functor that starts another parse (same parser object, same thread) while the outer call has values on its stacks
+static int eval_inner(std::string_view inner);
+constexpr nterm<int> S("S"); constexpr char grp_pat[] = "<[0-9+ ]*>"; constexpr regex_term<grp_pat> group("group");
+static const parser nested(S, terms(number, group, o_plus), nterms(S), rules(
+    S(number) >= [](const auto& sv) { return to_int(sv); },
+    S(group) >= [](const auto& sv) { return eval_inner(std::string_view(sv).substr(1, std::string_view(sv).size() - 2)); },
+    S(S, '+', S) >= [](int a, skip, int b) { return a + b; }));
+static int eval_inner(std::string_view inner) { auto r = nested.parse(string_buffer(std::string(inner))); return r ? *r : -100000; }
 static std::string observe(const std::string& in, int mode) {
   std::stringstream err; std::string r;
   if (mode == 0) { ctx c; auto v = p.context_parse(c, string_buffer(std::string(in)), err); r = (v ? std::to_string(*v) : "none") + "/" + std::to_string(c.n); }
@@ -45,6 +53,8 @@ int main() {
   bool same_image = std::memcmp(image.data(), &p, sizeof(p)) == 0;
   // history independence: the same calls again, sequentially, after all of the above
   for (size_t i = 0; i < jobs.size(); ++i) if (observe(jobs[i].first, jobs[i].second) != ref[i]) ++bad;
+  { struct { const char* in; int want; } nest[] = { {"1 + <2 + 3> + 4", 10}, {"<1+2> + <3+4> + 5", 15}, {"1 + 2 + <3> + <4 + 5 + 6> + 7", 28}, {"<1>", 1} };
+    for (auto& c : nest) { auto r = nested.parse(string_buffer(c.in)); if (!r || *r != c.want) { ++bad; std::cout << "FAIL nested call from a functor: '" << c.in << "' gives " << (r ? std::to_string(*r) : "none") << " (in isolation the inner and outer parses give " << c.want << ")\n"; } } }
   // history through the CALLER's long-lived stream: what a call appends to a stream that earlier calls (failed ones, lexical errors at
   // bytes >= 0x80, verbose ones) have written to is exactly what it writes to a fresh stream - no formatting state is left behind
   { std::stringstream shared; std::vector<std::string> seq = { "1;2;3;4;5;6;7;8;9;10;11+;", "1;\xa0", "1;2;3;4;5;6;7;8;9;10;11+;", "1+\xe9\x80;", "(1+2)*3;4;5;6;7;8;9;10;11;12;13", "1;2;3;4;5;6;7;8;9;10;11;12;13;14;15;16;17;18;19;20;21+;" };
